@@ -354,6 +354,16 @@ def run_check(mod, pid, tier, seed, replay=None):
         if replay:
             mod.replay(ctx, json.load(open(replay)))
         else:
+            # corpus first: minimised inputs of past failures (seeded changes, repaired defects)
+            cdir = os.path.join(VERIF, "corpus", pid)
+            if os.path.isdir(cdir) and hasattr(mod, "replay"):
+                for fn in sorted(os.listdir(cdir)):
+                    if fn.endswith(".json"):
+                        try:
+                            mod.replay(ctx, json.load(open(os.path.join(cdir, fn))))
+                            ctx.count("corpus")
+                        except Exception as e:  # a stale corpus entry must not break the check
+                            ctx.notes.append(f"corpus entry {fn} could not be replayed: {type(e).__name__}: {str(e)[:200]}")
             mod.run(ctx)
     except Exception:
         tb = traceback.format_exc()
